@@ -20,9 +20,9 @@ var (
 	sigmaBars = [][5]float64{
 		{4, 6, 3, 5, 10}, // up bar
 		{7, 7, 2, 2, 5},  // close at low
-		{5, 5, 5, 5, 0},  // flat, zero volume
 		{5, 8, 5, 8, 20}, // close at high
 		{1, 2, 1, 1, 10}, // small
+		{5, 5, 5, 5, 0},  // flat, zero volume (zero range: exempts ratio indicators from there on, so it comes late)
 		{6, 9, 4, 7, 0},  // wide, zero volume
 	}
 	sigmaXY    = [][2]float64{{1, 2}, {2, 1}, {3, 5}, {2, 2}, {0, 0}}
